@@ -97,6 +97,10 @@ func genC16(rng *rand.Rand, n int, emit func(Case), dist map[string]int) {
 		{"Group.Static /grp/files", mk(func(e *echo.Echo) { e.Group("/grp").Static("/files", root) }), "/grp/files", 0},
 		{"StaticFS recording fs.FS", mk(func(e *echo.Echo) { e.StaticFS("/fs", c16FS{os.DirFS(root), &opened}) }), "/fs", 2},
 		{"File route", mk(func(e *echo.Echo) { e.File("/one", filepath.Join(root, "file.txt")) }), "/one", 0},
+		{"File route (Echo.FileFS)", mk(func(e *echo.Echo) { e.FileFS("/onefs", "file.txt", os.DirFS(root)) }), "/onefs", 0},
+		{"File route (Group.File)", mk(func(e *echo.Echo) { e.Group("/gf").File("/one", filepath.Join(root, "file.txt")) }), "/gf/one", 0},
+		{"File route (Group.FileFS)", mk(func(e *echo.Echo) { e.Group("/gf").FileFS("/two", "sub/f.txt", os.DirFS(root)) }), "/gf/two", 0},
+		{"Group.StaticFS /gsfs/files", mk(func(e *echo.Echo) { e.Group("/gsfs").StaticFS("/files", os.DirFS(root)) }), "/gsfs/files", 0},
 	}
 	// roots "." and "" name the directory the instance was created in (echo.New captures it)
 	os.Chdir(root)
